@@ -79,9 +79,15 @@ func hasAPIParam(fn *ssa.Function) bool {
 	return false
 }
 
-func (a *nfa) build(fn *ssa.Function) (int, int) {
-	if e, ok := a.entry[fn]; ok {
-		return e, a.exit[fn]
+func (a *nfa) build(fn *ssa.Function) (int, int) { return a.buildWith(fn, nil) }
+
+// buildWith: when decide is given (a definition whose integer fields are known from the model's name suffix), a branch
+// whose condition it can evaluate keeps only the successor that is taken, and the automaton is not shared.
+func (a *nfa) buildWith(fn *ssa.Function, decide func(*ssa.If) (int, bool)) (int, int) {
+	if decide == nil {
+		if e, ok := a.entry[fn]; ok {
+			return e, a.exit[fn]
+		}
 	}
 	exit := a.state()
 	st := map[*ssa.BasicBlock][]int{}
@@ -93,7 +99,9 @@ func (a *nfa) build(fn *ssa.Function) (int, int) {
 		st[b] = row
 	}
 	entry := st[fn.Blocks[0]][0]
-	a.entry[fn], a.exit[fn] = entry, exit
+	if decide == nil {
+		a.entry[fn], a.exit[fn] = entry, exit
+	}
 	for _, b := range fn.Blocks {
 		for i, in := range b.Instrs {
 			s, t := st[b][i], st[b][i+1]
@@ -104,6 +112,12 @@ func (a *nfa) build(fn *ssa.Function) (int, int) {
 			case *ssa.Jump:
 				a.addEps(s, st[b.Succs[0]][0])
 			case *ssa.If:
+				if decide != nil {
+					if k, ok := decide(x); ok {
+						a.addEps(s, st[b.Succs[k]][0])
+						break
+					}
+				}
 				a.addEps(s, st[b.Succs[0]][0])
 				a.addEps(s, st[b.Succs[1]][0])
 			case *ssa.Panic:
@@ -511,7 +525,45 @@ func checkC17(p *core.Program, r *core.Report) {
 			}
 		}
 		if wordOK {
-			en, ex := a.build(g.Fn)
+			// branches on the definition's own integer fields (and on the field's bit length) are decided for the values the
+			// model's name encodes: `if gadget.Size >= api.Compiler().FieldBitLen()` emits the reducedness gadget for _256
+			// and not for _32, and the model must agree with exactly that
+			var decide func(*ssa.If) (int, bool)
+			if gi := ctx.define(g.T, g.Fn.Name()); gi != nil && suffixOK {
+				decide = func(iff *ssa.If) (int, bool) {
+					ct := gi.Ev.TermIn(iff.Cond, iff.Block())
+					if ct == nil || ct.K != tf.KBin || len(ct.Args) != 2 {
+						return 0, false
+					}
+					x, okx := evalIntFormX(ct.Args[0], gi.Ev.Params[0], ints)
+					y, oky := evalIntFormX(ct.Args[1], gi.Ev.Params[0], ints)
+					if !okx || !oky {
+						return 0, false
+					}
+					var truth bool
+					switch ct.Name {
+					case "<":
+						truth = x < y
+					case "<=":
+						truth = x <= y
+					case ">":
+						truth = x > y
+					case ">=":
+						truth = x >= y
+					case "==":
+						truth = x == y
+					case "!=":
+						truth = x != y
+					default:
+						return 0, false
+					}
+					if truth {
+						return 0, true
+					}
+					return 1, true
+				}
+			}
+			en, ex := a.buildWith(g.Fn, decide)
 			ok, at, alive := a.accepts(en, ex, word)
 			r.Count("trace symbols checked", len(word))
 			if ok {
@@ -891,4 +943,30 @@ func osFlag(p *core.Program, name string) int64 {
 		}
 	}
 	return 0
+}
+
+// evalIntFormX: evalIntForm with the scalar field's bit length as a known quantity (the circuits are compiled over
+// BN254's scalar field — C12 O12.3 — whose modulus has 254 bits).
+func evalIntFormX(t, recv *tf.Term, ints map[string]int64) (int64, bool) {
+	c, atoms, coefs := tf.AffParts(t)
+	v := c
+	for i, a := range atoms {
+		if a.K == tf.KCall && strings.HasSuffix(a.Name, "frontend.Compiler).FieldBitLen") {
+			v += coefs[i] * 254
+			continue
+		}
+		if a.K == tf.KLen {
+			return 0, false
+		}
+		f, ok := fieldOf(a, recv)
+		if !ok {
+			return 0, false
+		}
+		x, ok := ints[f]
+		if !ok {
+			return 0, false
+		}
+		v += coefs[i] * x
+	}
+	return v, true
 }
